@@ -437,6 +437,14 @@ def finish(mod, tier, seed, st, t0):
         for h in herr[:3]:
             print("HARNESS-ERROR:\n" + h)
         return 2
+    # a candidate that does not reproduce although another candidate with the same footprint does (the same
+    # failure seen once in a polluted long-lived worker, once on its own) is not reported separately
+    _base = lambda sg: sg.split(":only after")[0]  # noqa: E731
+    okb = {_base(v["sig"]) for v in confirmed}
+    dropped = [f for f in flaky if _base(f[0]["sig"]) in okb]
+    flaky = [f for f in flaky if _base(f[0]["sig"]) not in okb]
+    if dropped:
+        print("note: %d candidate(s) seen only in a long-lived worker were not reproducible on their own; the same signature is confirmed by another case" % len(dropped))
     if flaky:
         for v, oks in flaky[:5]:
             print("HARNESS-ERROR: non-reproducible candidate sig=%s replays=%r" % (v["sig"], oks))
